@@ -212,17 +212,29 @@ func VK09dAround() {
 	cons := func() *Constraint {
 		return &Constraint{Permanode: &PermanodeConstraint{Attr: vAttr, Value: vValue}}
 	}
+	// one more permanode that exists but does not match the constraint
+	other := blob.VerifSmallRef(240)
+	h.corpus.VerifAddBlobMeta(other, 100, "permanode")
+	oerr := h.corpus.VerifMergeClaim(camtypes.Claim{BlobRef: blob.VerifSmallRef(241), Signer: vSigner, Permanode: other,
+		Date: time.Unix(1000000100, 0), Type: "set-attribute", Attr: vAttr, Value: "other"})
+	vrt.Assume(oerr == nil)
 	full, err := h.Query(context.Background(), &SearchQuery{Constraint: cons(), Limit: -1, Sort: srt})
-	vrt.Assert(err == nil && len(full.Blobs) == n, "unlimited query lists every permanode")
-	pk := vrt.Choice(n + 1)
+	vrt.Assert(err == nil && len(full.Blobs) == n, "unlimited query lists every matching permanode")
+	pk := vrt.Choice(n + 2)
 	pivot := blob.VerifSmallRef(250) // not in the world
 	if pk < n {
 		pivot = refs[pk]
+	} else if pk == n+1 {
+		pivot = other
+		if vrt.Bool() {
+			limit = -1
+		}
 	}
 	res, err := h.Query(context.Background(), &SearchQuery{Constraint: cons(), Limit: limit, Sort: srt, Around: pivot})
 	vrt.Assert(err == nil, "around query succeeds")
-	if pk == n {
-		vrt.Assert(len(res.Blobs) == 0, "around an absent pivot returns nothing")
+	if pk >= n {
+		vrt.Assert(len(res.Blobs) == 0, "around an absent or non-matching pivot returns nothing")
+		vrt.Cover("no-pivot")
 		return
 	}
 	vrt.Assert(len(res.Blobs) >= 1 && len(res.Blobs) <= limit, "around window is non-empty and within the limit")
@@ -261,7 +273,7 @@ func VK09eCacheInvalidation() {
 		for _, av := range [][2]string{{"title", "x"}, {"camliContent", files[i].String()}} {
 			seq++
 			err := c.VerifMergeClaim(camtypes.Claim{BlobRef: blob.VerifSmallRef(seq), Signer: vSigner, Permanode: pn,
-				Date: time.Unix(1000000000+int64(vrt.Range(0, 3)), 0), Type: "set-attribute", Attr: av[0], Value: av[1]})
+				Date: time.Unix(0, int64(vrt.Range(8, 11))), Type: "set-attribute", Attr: av[0], Value: av[1]}) // 1..2-digit UnixNano: the token arithmetic stays trivial
 			vrt.Assume(err == nil)
 		}
 	}
@@ -283,7 +295,7 @@ func VK09eCacheInvalidation() {
 	// the file behind one of the permanodes is received now: its time is far before or far
 	// after every claim date
 	which := vrt.Choice(2)
-	when := []string{"1980-01-01T00%3A00%3A00Z", "2030-01-01T00%3A00%3A00Z"}[vrt.Choice(2)]
+	when := []string{"1969-12-31T23%3A59%3A59Z", "2030-01-01T00%3A00%3A00Z"}[vrt.Choice(2)]
 	fr := files[which].String()
 	err := c.VerifAddBlobRows(files[which], map[string]string{
 		"meta:" + fr:      "3|application/json; camliType=file",
@@ -300,6 +312,31 @@ func VK09eCacheInvalidation() {
 		vrt.Assert(!t0.Before(t1), "after a blob was received the results are ordered by the current times (newest first)")
 		if t0.Equal(t1) {
 			vrt.Assert(second[1].Less(second[0]), "ties are ordered by ref, descending")
+		}
+	}
+	// paging one by one through a world where creation time (from the content file) and
+	// modification time differ
+	var paged []blob.Ref
+	cont := ""
+	for page := 0; page < 4; page++ {
+		res, err := h.Query(context.Background(), &SearchQuery{Constraint: &Constraint{Permanode: &PermanodeConstraint{}}, Limit: 1, Sort: srt, Continue: cont})
+		vrt.Assert(err == nil, "a page query succeeds")
+		if err != nil {
+			break
+		}
+		for _, b := range res.Blobs {
+			paged = append(paged, b.Blob)
+		}
+		cont = res.Continue
+		if cont == "" {
+			break
+		}
+	}
+	vrt.Assert(cont == "", "paging terminates")
+	vrt.Assert(len(paged) == len(second), "paging returns every permanode exactly once (count)")
+	for i := range second {
+		if i < len(paged) {
+			vrt.Assert(paged[i] == second[i], "paging returns the permanodes in the order of the unpaged result")
 		}
 	}
 	vrt.Cover("done")
